@@ -114,6 +114,7 @@ class LogitLink(Link):
         -------
         lp : np.array of length n
         """
+        mu = np.asarray(mu, dtype='float64')  # integer / low-precision input
         return np.log(mu) - np.log(dist.levels - mu)
 
     def mu(self, lp, dist):
@@ -130,6 +131,7 @@ class LogitLink(Link):
         -------
         mu : np.array of length n
         """
+        lp = np.asarray(lp, dtype='float64')  # integer / low-precision input
         elp = np.exp(lp)
         return dist.levels * elp / (elp + 1)
 
@@ -146,6 +148,7 @@ class LogitLink(Link):
         -------
         grad : np.array of length n
         """
+        mu = np.asarray(mu, dtype='float64')  # integer / low-precision input
         return dist.levels / (mu * (dist.levels - mu))
 
 
@@ -178,6 +181,7 @@ class LogLink(Link):
         -------
         lp : np.array of length n
         """
+        mu = np.asarray(mu, dtype='float64')  # integer / low-precision input
         return np.log(mu)
 
     def mu(self, lp, dist):
@@ -194,6 +198,7 @@ class LogLink(Link):
         -------
         mu : np.array of length n
         """
+        lp = np.asarray(lp, dtype='float64')  # integer / low-precision input
         return np.exp(lp)
 
     def gradient(self, mu, dist):
@@ -209,6 +214,7 @@ class LogLink(Link):
         -------
         grad : np.array of length n
         """
+        mu = np.asarray(mu, dtype='float64')  # integer / low-precision input
         return 1.0 / mu
 
 
@@ -241,6 +247,7 @@ class InverseLink(Link):
         -------
         lp : np.array of length n
         """
+        mu = np.asarray(mu, dtype='float64')  # integer / low-precision input
         return mu**-1.0
 
     def mu(self, lp, dist):
@@ -257,6 +264,7 @@ class InverseLink(Link):
         -------
         mu : np.array of length n
         """
+        lp = np.asarray(lp, dtype='float64')  # integer / low-precision input
         return lp**-1.0
 
     def gradient(self, mu, dist):
@@ -272,6 +280,7 @@ class InverseLink(Link):
         -------
         grad : np.array of length n
         """
+        mu = np.asarray(mu, dtype='float64')  # integer / low-precision input
         return -1 * mu**-2.0
 
 
@@ -304,6 +313,7 @@ class InvSquaredLink(Link):
         -------
         lp : np.array of length n
         """
+        mu = np.asarray(mu, dtype='float64')  # integer / low-precision input
         return mu**-2.0
 
     def mu(self, lp, dist):
@@ -320,6 +330,7 @@ class InvSquaredLink(Link):
         -------
         mu : np.array of length n
         """
+        lp = np.asarray(lp, dtype='float64')  # integer / low-precision input
         return lp**-0.5
 
     def gradient(self, mu, dist):
@@ -335,6 +346,7 @@ class InvSquaredLink(Link):
         -------
         grad : np.array of length n
         """
+        mu = np.asarray(mu, dtype='float64')  # integer / low-precision input
         return -2 * mu**-3.0
 
 
